@@ -20,13 +20,19 @@ import (
 
 // DepSet is the result of a dependence closure.
 type DepSet struct {
-	Fields  map[*types.Var]bool  // struct fields loaded (x.f, via FieldAddr+load or Field)
-	Params  map[*types.Var]bool  // parameters / receiver
-	Free    map[*types.Var]bool  // captured variables
+	Fields  map[*types.Var]bool // struct fields loaded (x.f, via FieldAddr+load or Field)
+	Params  map[*types.Var]bool // parameters / receiver
+	Free    map[*types.Var]bool // captured variables
 	Globals map[types.Object]bool
 	Calls   map[*types.Func]bool // callees (static, or interface method for invoke mode) whose result is used
 	Values  map[ssa.Value]bool   // every SSA value visited
 	Unknown []string             // value kinds the walker does not model (rule must fail closed if it relies on completeness)
+
+	// follow, when set, makes the closure interprocedural for static callees it accepts: the value of a call
+	// (or of one extracted result) additionally depends on what the callee's return statements yield for
+	// that result. Arguments are always included, so parameter dependences are over-approximated.
+	follow func(*ssa.Function) bool
+	depth  int
 }
 
 func newDepSet() *DepSet {
@@ -39,6 +45,42 @@ func ValueDeps(v ssa.Value) *DepSet {
 	d := newDepSet()
 	d.walk(v)
 	return d
+}
+
+// ValueDepsFollow is ValueDeps made interprocedural: calls to static callees accepted by follow (functions
+// with a body) contribute the dependences of the returned values (per result index for tuples).
+func ValueDepsFollow(v ssa.Value, follow func(*ssa.Function) bool) *DepSet {
+	d := newDepSet()
+	d.follow = follow
+	d.walk(v)
+	return d
+}
+
+// walkCallee adds the dependences of result idx (-1: every result) of the followed callee of call.
+func (d *DepSet) walkCallee(call *ssa.Call, idx int) bool {
+	if d.follow == nil || d.depth >= 3 {
+		return false
+	}
+	fn := call.Common().StaticCallee()
+	if fn == nil || len(fn.Blocks) == 0 || !d.follow(fn) {
+		return false
+	}
+	d.depth++
+	for _, b := range fn.Blocks {
+		for _, ins := range b.Instrs {
+			ret, ok := ins.(*ssa.Return)
+			if !ok {
+				continue
+			}
+			for i, r := range ret.Results {
+				if idx < 0 || i == idx {
+					d.walk(r)
+				}
+			}
+		}
+	}
+	d.depth--
+	return true
 }
 
 // HasField reports whether field f was loaded.
@@ -132,6 +174,20 @@ func (d *DepSet) walk(v ssa.Value) {
 	case *ssa.TypeAssert:
 		d.walk(x.X)
 	case *ssa.Extract:
+		if call, ok := x.Tuple.(*ssa.Call); ok && d.walkCallee(call, x.Index) {
+			// only the extracted result of a followed callee (plus the call's arguments, once)
+			if !d.Values[call] {
+				d.Values[call] = true
+				c := call.Common()
+				if o, ok := c.StaticCallee().Object().(*types.Func); ok {
+					d.Calls[o.Origin()] = true
+				}
+				for _, a := range c.Args {
+					d.walk(a)
+				}
+			}
+			return
+		}
 		d.walk(x.Tuple)
 	case *ssa.Slice:
 		d.walk(x.X)
@@ -155,6 +211,7 @@ func (d *DepSet) walk(v ssa.Value) {
 		for _, a := range c.Args {
 			d.walk(a)
 		}
+		d.walkCallee(x, -1)
 	case *ssa.MakeClosure:
 		for _, b := range x.Bindings {
 			d.walk(b)
